@@ -215,6 +215,22 @@ class Adapter:
 
     def __init__(self, env):
         self.env = env
+        self.damaged = []
+
+    def damage_present(self):
+        """Is a damaged / wrong-shape file that was put there still on disk?"""
+        for p, data in self.damaged:
+            try:
+                if open(p, 'rb').read() == data:
+                    return True
+            except OSError:
+                pass
+        return False
+
+    DAMAGE_KINDS = ['empty', 'trunc', 'garbage', 'zip', 'shape']
+
+    def gen_damage(self, rng, key):
+        return ('seed', int(rng.integers(1, 3)), key, self.DAMAGE_KINDS[rng.integers(len(self.DAMAGE_KINDS))])
 
     # operations common to all modules -----------------------------------
     def apply(self, op):
@@ -235,6 +251,8 @@ class Adapter:
                 else damaged_bytes(what, good)
             with open(p, 'wb') as f:
                 f.write(data)
+            if what != 'good':
+                self.damaged.append((p, data))
             return None
         if kind == 'remove':
             _, d, key = op
@@ -683,7 +701,7 @@ class Linbasex(Adapter):
 
     def junk_file(self, key):
         buf = io.BytesIO()
-        np.save(buf, np.zeros((2 * key[0], 2)))
+        np.save(buf, np.zeros((2 * key[0], 6)))
         return buf.getvalue()
 
     def coq_key(self, key):
@@ -941,7 +959,7 @@ class Rbasex(Adapter):
     def ref_call(self, c):
         """what is sent to the fresh worker: the weights content is named"""
         c = dict(c)
-        if c['wid']:
+        if c['wid'] and 'wver' not in c:
             c['wver'] = self.wver[c['wid']]
         return c
 
@@ -1131,19 +1149,21 @@ def fresh_process(root, modname, call):
 # --------------------------------------------------------------------------
 # running a history
 # --------------------------------------------------------------------------
-def run_history(adapter, worker, ops):
+def run_history(adapter, worker, ops, refs=True):
     """Execute ops on the implementation (from the import-time state, empty
     directories).  Returns one record per operation."""
     adapter.env.reset()
     adapter.reset_memory()
+    adapter.damaged = []
     recs = []
     for op in ops:
         aux = adapter.pre(op)
+        present = adapter.damage_present()
         out = adapter.apply(op)
         code = agree = fcode = 0
         agree = True
         ref = None
-        if op[0] == 'call':
+        if op[0] == 'call' and refs:
             ref = worker.ask(adapter.name, adapter.ref_call(op[1]))
             if ref[0] == 'harness-error':
                 raise RuntimeError('fresh worker: ' + ref[1])
@@ -1154,7 +1174,7 @@ def run_history(adapter, worker, ops):
             else:
                 agree = (code == fcode)
         recs.append(dict(op=op, aux=aux, out=out, ref=ref, code=code, fresh_code=fcode, agree=agree,
-                         state=adapter.state()))
+                         state=adapter.state(), damage_before=present))
     return recs
 
 
@@ -1165,6 +1185,126 @@ def coq_history(adapter, recs):
         if o is not None:
             out.append('(%s, %s)' % (o, adapter.coq_obs(r['code'], r['agree'], r['fresh_code'], r['state'])))
     return clist(out)
+
+
+# --------------------------------------------------------------------------
+# the property on the implementation: verdict of one call, replay, shrinking
+# --------------------------------------------------------------------------
+def verdict(rule, out, ref, ref_nodisk=None, damage_present=True):
+    """Does the outcome of a call in a history violate the property?
+    rule 'C07': the call must return what the fresh process returns.
+    rule 'C08': (a damaged file is or was around) it must return that or raise.
+    Returns None when fine, else a short description."""
+    if out[0] == 'ok' and ref[0] == 'ok':
+        if same(out[1], ref[1]):
+            return None
+        return 'returns other numbers than a fresh process (max abs difference %.3g)' % maxdiff(out[1], ref[1])
+    if out[0] == 'exc' and ref[0] == 'ok':
+        if rule == 'C08' and damage_present:
+            return None
+        if rule == 'C08':
+            return 'still raises %s after the damaged file is gone (a fresh process returns a result)' % out[1]
+        return 'raises %s where a fresh process returns a result' % out[1]
+    if out[0] == 'ok' and ref[0] == 'exc':
+        # e.g. an unwritable basis_dir: a fresh process cannot even save; then the
+        # reference is the same call without disk cache
+        if ref_nodisk is not None and ref_nodisk[0] == 'ok':
+            if same(out[1], ref_nodisk[1]):
+                return None
+            return 'returns other numbers than without disk cache (max abs difference %.3g)' % maxdiff(
+                out[1], ref_nodisk[1])
+        return 'returns a result where a fresh process raises %s' % ref[1]
+    return None
+
+
+class LocalFresh:
+    """Fresh-state reference computed in a child interpreter per request
+    (used by replays, which must be stand-alone)."""
+
+    def __init__(self, root):
+        self.root = root
+
+    def ask(self, modname, call):
+        return fresh_process(self.root, modname, call)
+
+    def close(self):
+        shutil.rmtree(self.root, ignore_errors=True)
+
+
+def check_last(adapter, worker, ops, rule):
+    """Run ops (the last one is a call); verdict of that last call."""
+    recs = run_history(adapter, worker, ops[:-1], refs=False)
+    last = ops[-1]
+    aux = adapter.pre(last)
+    present = adapter.damage_present()
+    out = adapter.apply(last)
+    ref = worker.ask(adapter.name, adapter.ref_call(last[1]))
+    ref2 = None
+    if out[0] == 'ok' and ref[0] == 'exc':
+        ref2 = worker.ask(adapter.name, adapter.ref_call(dict(last[1], bd=None)))
+    return verdict(rule, out, ref, ref2, present), recs, out, ref
+
+
+def replay(modname, ops, rule):
+    """Entry point of the replay snippets: exit status 1 iff the property fails."""
+    root = '/var/tmp/pyabel-verif-replay-%d' % os.getpid()
+    env = Env(os.path.join(root, 'main'))
+    ad = ADAPTERS[modname](env)
+    w = LocalFresh(os.path.join(root, 'fresh'))
+    try:
+        v, recs, out, ref = check_last(ad, w, ops, rule)
+    finally:
+        w.close()
+        env.close()
+        shutil.rmtree(root, ignore_errors=True)
+    for r in recs:
+        print('  ', r['op'][0], r['op'][1:] if r['op'][0] != 'call' else r['op'][1],
+              '->', r['out'] if r['out'] is None or r['out'][0] == 'exc' else 'ok')
+    print('last call:', ops[-1][1], '->', out if out[0] == 'exc' else 'ok',
+          '| fresh process:', ref[:2] if ref[0] == 'exc' else 'ok')
+    print('property %s %s%s' % (rule, 'FAILS: ' if v else 'holds', v or ''))
+    return 1 if v else 0
+
+
+SNIPPET = """import sys
+sys.path.insert(0, '/verif/tools')
+from props import cache_harness as H
+# history of operations on abel.%(mod)s (see tools/props/cache_harness.py for the
+# meaning of the fields); the last call must %(must)s
+ops = %(ops)s
+sys.exit(H.replay(%(mod)r, ops, %(rule)r))
+"""
+
+
+def snippet(modname, ops, rule):
+    must = 'return what a fresh process returns' if rule == 'C07' else \
+        'return what a fresh process returns, or raise while a damaged file is still on disk'
+    body = '[\n' + ''.join('    %r,\n' % (o,) for o in ops) + ']'
+    return SNIPPET % dict(mod=modname, ops=body, rule=rule, must=must)
+
+
+def shrink(adapter, worker, ops, rule, budget=60):
+    """Delta-debugging of a failing history (the last op is the failing call)."""
+    fails = lambda h: check_last(adapter, worker, h, rule)[0] is not None      # noqa
+    cur = list(ops)
+    n = 0
+    changed = True
+    while changed and n < budget:
+        changed = False
+        for i in range(len(cur) - 1):
+            cand = cur[:i] + cur[i + 1:]
+            n += 1
+            try:
+                bad = fails(cand)
+            except Exception:       # noqa
+                bad = False
+            if bad:
+                cur = cand
+                changed = True
+                break
+            if n >= budget:
+                break
+    return cur
 
 
 if __name__ == '__main__':
